@@ -6,8 +6,10 @@ import (
 	"fmt"
 	"os"
 	"path/filepath"
+	"reflect"
 	"sort"
 	"strings"
+	"sync"
 	"time"
 )
 
@@ -52,18 +54,50 @@ type Ctx struct {
 	// share: while set, only the rules named in it are recorded, under the mapped id (rules of another
 	// property that are necessary conditions of this one as well; see Share)
 	share map[string]string
+	// noNested: this context evaluates a rule set for Share; Share calls inside it are ignored
+	noNested bool
+}
+
+// sharedRun is the complete outcome of one rule set on one program and configuration.
+type sharedRun struct {
+	once  sync.Once
+	rules []*RuleInfo
+	obs   []*Obligation
 }
 
 // Share runs f (the rule set of another property) and keeps only the rules listed in m, renamed to this property's
-// numbering. The obligations keep their keys, so a construct is reported identically under both properties.
+// numbering. The obligations keep their keys, so a construct is reported identically under both properties. A rule set
+// is evaluated once per program and configuration (its own shares excluded) and replayed for every property that
+// shares rules of it.
 func (c *Ctx) Share(m map[string]string, f func(*Ctx)) {
-	if c.share != nil {
+	if c.share != nil || c.noNested {
 		return // the shared rule set's own shares do not belong to this property
 	}
+	key := fmt.Sprintf("%x|%s", reflect.ValueOf(f).Pointer(), c.Config)
+	c.P.sharedMu.Lock()
+	if c.P.shared == nil {
+		c.P.shared = map[string]*sharedRun{}
+	}
+	run := c.P.shared[key]
+	if run == nil {
+		run = &sharedRun{}
+		c.P.shared[key] = run
+	}
+	c.P.sharedMu.Unlock()
+	run.once.Do(func() {
+		sc := &Ctx{P: c.P, Property: c.Property, Config: c.Config, ruleIdx: map[string]*RuleInfo{}, noNested: true}
+		f(sc)
+		run.rules, run.obs = sc.rules, sc.Obs
+	})
 	old := c.share
 	c.share = m
 	defer func() { c.share = old }()
-	f(c)
+	for _, r := range run.rules {
+		c.Rule(r.ID, r.Text, r.Min)
+	}
+	for _, o := range run.obs {
+		c.add(o.Rule, o.Key, o.Pos, o.Status, o.Detail, o.Trail)
+	}
 }
 
 // NewCtx makes a rule context.
